@@ -4,8 +4,8 @@
 use wf_harness::core::*;
 use wf_harness::fields::*;
 use wf_harness::oracle::*;
-use winter_math::{fields::f128, fields::f62, fields::f64, FieldElement, StarkField};
-use winter_utils::{AsBytes, ByteReader, Deserializable, Serializable, SliceReader};
+use winter_math::{fields::f128, fields::f62, fields::f64, ExtensionOf, FieldElement, StarkField};
+use winter_utils::{AsBytes, ByteReader, ByteWriter, Deserializable, Randomizable, Serializable, SliceReader};
 
 pub struct P;
 
@@ -308,6 +308,23 @@ impl ConvExtra for f62::BaseElement {
     fn tryarr8(b: [u8; 8]) -> Result<Self, ()> { Self::try_from(b).map_err(|_| ()) }
 }
 impl ConvExtra for f128::BaseElement {}
+
+/// twins of the uniform view that exist per concrete type: the inherent `as_int` of the 64-bit field (a `const fn`
+/// next to `StarkField::as_int`), the associated constant `MODULUS` as an integer
+trait ViewExtra: Sized {
+    fn inherent_as_int(&self) -> Option<u128> { None }
+    fn modulus_const() -> u128;
+}
+impl ViewExtra for f64::BaseElement {
+    fn inherent_as_int(&self) -> Option<u128> { Some(f64::BaseElement::as_int(self) as u128) }
+    fn modulus_const() -> u128 { <Self as StarkField>::MODULUS as u128 }
+}
+impl ViewExtra for f62::BaseElement {
+    fn modulus_const() -> u128 { <Self as StarkField>::MODULUS as u128 }
+}
+impl ViewExtra for f128::BaseElement {
+    fn modulus_const() -> u128 { <Self as StarkField>::MODULUS }
+}
 fn try64<F: ConvExtra>(v: u64) -> Result<F, ()> { F::try64(v) }
 fn tryusize<F: ConvExtra>(v: usize) -> Result<F, ()> { F::tryusize(v) }
 fn tryarr8<F: ConvExtra>(b: [u8; 8]) -> Result<F, ()> { F::tryarr8(b) }
@@ -339,7 +356,7 @@ fn gen_conv<F: Fld>(rng: &mut Rng, emit: &mut dyn FnMut(String)) {
     for r in raws { for w in [1u32, 8, 16, 32, 64, 128] { emit(format!("{} into {} {}", f, w, r)); } }
 }
 
-fn exec_f<F: Fld>(t: &[&str]) -> Outcome {
+fn exec_f<F: Fld + ViewExtra>(t: &[&str]) -> Outcome {
     let m = F::MOD;
     let p = |s: &str| s.parse::<u128>().unwrap();
     match t {
@@ -401,6 +418,150 @@ fn exec_f<F: Fld>(t: &[&str]) -> Outcome {
             // only the residue is compared with the model (the default ladder and the field's own `exp` may leave
             // different internal words of the same residue); the oracle still checks the representation invariant
             check_elem(Outcome::ok(format!("{}", r.canon())), "exp_vartime", &r, powmod(va, p(e), m))
+        },
+        // the assigning operator forms and ExtensionOf::mul_base (own impl blocks next to Add/Sub/Mul/Div; the field
+        // is an extension of itself through the blanket impl of math/src/field/traits.rs): one line drives
+        // `+=`, `-=`, `*=`, `/=` and `mul_base` on one operand pair; residues are compared with the model's
+        // add / sub / mul / div (the internal word may legitimately differ from the value-returning twin)
+        ["asg", a, b] | ["rasg", a, b] => {
+            let raw = t[0] == "rasg";
+            let (x, y) = if raw { (F::from_raw_word(p(a)), F::from_raw_word(p(b))) } else { (F::from_word(p(a)), F::from_word(p(b))) };
+            let (va, vb) = if raw { (raw_val::<F>(p(a)), raw_val::<F>(p(b))) } else { (p(a) % m, p(b) % m) };
+            let (mut s, mut d, mut pr, mut q) = (x, x, x, x);
+            s += y;
+            d -= y;
+            pr *= y;
+            q /= y;
+            let mb = <F as ExtensionOf<F>>::mul_base(x, y);
+            let mut o = Outcome::ok(format!("{} {} {} {} {}", s.canon(), d.canon(), pr.canon(), q.canon(), mb.canon()));
+            o = check_elem(o, "add_assign", &s, addmod(va, vb, m));
+            o = check_elem(o, "sub_assign", &d, submod(va, vb, m));
+            o = check_elem(o, "mul_assign", &pr, mulmod(va, vb, m));
+            o = check_elem(o, "div_assign", &q, mulmod(va, invmod(vb, m), m));
+            check_elem(o, "mul_base", &mb, mulmod(va, vb, m))
+        },
+        // every public view of one element that must show the residue and nothing else: conjugate (identity on a
+        // prime field), base_element(0), the inherent `as_int` (64-bit field) next to StarkField::as_int, Display,
+        // Debug, slice_as_base_elements / slice_from_base_elements of the one-element slice
+        ["view", a] | ["rview", a] => {
+            let raw = t[0] == "rview";
+            let x = if raw { F::from_raw_word(p(a)) } else { F::from_word(p(a)) };
+            let va = if raw { raw_val::<F>(p(a)) } else { p(a) % m };
+            let c = x.conjugate();
+            let b0 = x.base_element(0);
+            let ai = x.inherent_as_int().unwrap_or_else(|| x.canon());
+            let (disp, dbg) = (format!("{}", x), format!("{:?}", x));
+            let xs = [x];
+            let sb = F::slice_as_base_elements(&xs)[0];
+            let sf = F::slice_from_base_elements(&xs)[0];
+            let mut o = Outcome::ok(format!("{} {} {} {} {} {} {}", c.canon(), b0.canon(), ai, disp, dbg, sb.canon(), sf.canon()));
+            o = check_elem(o, "conjugate", &c, va);
+            o = check_elem(o, "base_element", &b0, va);
+            o = check_elem(o, "slice_as_base_elements", &sb, va);
+            o = check_elem(o, "slice_from_base_elements", &sf, va);
+            if ai != va {
+                o = o.fail(format!("{}.as_int.value", F::NAME), format!("inherent as_int gives {} for the residue {}", ai, va));
+            }
+            if disp != format!("{}", va) || dbg != disp {
+                o = o.fail(format!("{}.display.value", F::NAME), format!("residue {} printed as {} / {}", va, disp, dbg));
+            }
+            o
+        },
+        // base_element(i): i = 0 only (documented panic otherwise)
+        ["basee", i, a] => {
+            let x = F::from_raw_word(p(a));
+            let r = x.base_element(p(i) as usize);
+            check_elem(Outcome::ok(format!("{}", r.canon())), "base_element", &r, raw_val::<F>(p(a)))
+        },
+        // slices of elements: elements_as_bytes (reinterpretation: the internal words), bytes_as_elements back,
+        // slice_as_base_elements / slice_from_base_elements (identity), ByteWriter::write_many / the slice and Vec
+        // impls of Serializable (canonical bytes, element by element) and read_many / Vec::read_from back
+        ["elems", raws @ ..] => {
+            let ws: Vec<u128> = raws.iter().map(|r| p(r)).collect();
+            if ws.iter().any(|w| !F::raw_ok(*w)) {
+                return Outcome::ok("bad-op");
+            }
+            let xs: Vec<F> = ws.iter().map(|w| F::from_raw_word(*w)).collect();
+            let vals: Vec<u128> = ws.iter().map(|w| raw_val::<F>(*w)).collect();
+            let nb = F::ELEMENT_BYTES;
+            let eb = F::elements_as_bytes(&xs).to_vec();
+            let mut wm: Vec<u8> = vec![];
+            wm.write_many(&xs);
+            let mut o = Outcome::ok(format!("{} {}", hex(&eb), hex(&wm)));
+            let exp_eb: Vec<u8> = ws.iter().flat_map(|w| (0..nb).map(move |i| (w >> (8 * i)) as u8)).collect();
+            let exp_wm: Vec<u8> = vals.iter().flat_map(|v| (0..nb).map(move |i| (v >> (8 * i)) as u8)).collect();
+            if eb != exp_eb {
+                o = o.fail(format!("{}.elements_as_bytes", F::NAME), "not the internal words in little-endian order");
+            }
+            if wm != exp_wm {
+                o = o.fail(format!("{}.write_many", F::NAME), "not the canonical encodings one after the other");
+            }
+            // reinterpretation back (the bytes of a slice of elements are aligned for the element type)
+            match unsafe { F::bytes_as_elements(F::elements_as_bytes(&xs)) } {
+                Ok(ys) if ys.len() == xs.len() && ys.iter().zip(xs.iter()).all(|(y, x)| y.raw_word() == x.raw_word()) => {},
+                _ => o = o.fail(format!("{}.bytes_as_elements", F::NAME), "bytes_as_elements(elements_as_bytes(xs)) != xs"),
+            }
+            if !eb.is_empty() && unsafe { F::bytes_as_elements(&F::elements_as_bytes(&xs)[..eb.len() - 1]) }.is_ok() {
+                o = o.fail(format!("{}.bytes_as_elements", F::NAME), "accepted a byte count that is not a multiple of the element size");
+            }
+            let sb = F::slice_as_base_elements(&xs);
+            let sf = F::slice_from_base_elements(&xs);
+            if sb.len() != xs.len() || sf.len() != xs.len() || (0..xs.len()).any(|i| sb[i].raw_word() != ws[i] || sf[i].raw_word() != ws[i]) {
+                o = o.fail(format!("{}.slice_as_base_elements", F::NAME), "not the identity on a prime field");
+            }
+            // the length-prefixed forms and the readers
+            let v_bytes = xs.to_bytes();
+            let s_bytes = xs.as_slice().to_bytes();
+            let mut pre: Vec<u8> = vec![];
+            pre.write_usize(xs.len());
+            let mut exp_v = pre.clone();
+            exp_v.extend_from_slice(&exp_wm);
+            if v_bytes != exp_v || s_bytes != exp_v {
+                o = o.fail(format!("{}.vec.to_bytes", F::NAME), "Vec / slice encoding is not the length followed by the canonical encodings");
+            }
+            let back: Result<Vec<F>, _> = SliceReader::new(&wm).read_many(xs.len());
+            let back2: Result<Vec<F>, _> = Vec::<F>::read_from_bytes(&v_bytes);
+            for b in [back, back2] {
+                match b {
+                    Ok(ys) if ys.len() == xs.len() && ys.iter().zip(vals.iter()).all(|(y, v)| y.canon() == *v && F::raw_ok(y.raw_word())) => {},
+                    _ => o = o.fail(format!("{}.read_many", F::NAME), "reading the written elements back gives other values"),
+                }
+            }
+            o
+        },
+        // StarkField::from_bytes_with_padding: fewer than ELEMENT_BYTES bytes, zero-padded (documented panics otherwise)
+        ["padded", h] => {
+            let bytes = unhex(h);
+            let x = F::from_bytes_with_padding(&bytes);
+            let mut v: u128 = 0;
+            for (i, b) in bytes.iter().enumerate().take(16) {
+                v |= (*b as u128) << (8 * i);
+            }
+            let mut o = check_elem(Outcome::ok(format!("ok {}", x.canon())), "from_bytes_with_padding", &x, v % m);
+            if bytes.len() >= F::ELEMENT_BYTES || v >= m {
+                o = o.fail(format!("{}.from_bytes_with_padding.accepted", F::NAME), format!("accepted {} bytes with value {}", bytes.len(), v));
+            }
+            o
+        },
+        // associated constants that other code computes with
+        ["const2"] => {
+            let d = F::default();
+            let bits = 128 - m.leading_zeros();
+            let mut o = Outcome::ok(format!("{} {} {} {} {} {}", F::modulus_const(), F::MODULUS_BITS, F::EXTENSION_DEGREE, d.canon(), F::ELEMENT_BYTES, <F as Randomizable>::VALUE_SIZE));
+            if F::modulus_const() != m || F::MODULUS_BITS != bits || F::EXTENSION_DEGREE != 1 || <F as Randomizable>::VALUE_SIZE != F::ELEMENT_BYTES {
+                o = o.fail(format!("{}.const.modulus", F::NAME), "MODULUS / MODULUS_BITS / EXTENSION_DEGREE / VALUE_SIZE");
+            }
+            o = check_elem(o, "default", &d, 0);
+            // IS_CANONICAL promises that the internal word is the canonical integer
+            if F::IS_CANONICAL {
+                for w in boundary(m, F::word_bits()).into_iter().filter(|w| F::raw_ok(*w)) {
+                    let x = F::from_raw_word(w);
+                    if x.as_bytes() != x.to_bytes().as_slice() {
+                        o = o.fail(format!("{}.const.is_canonical", F::NAME), format!("IS_CANONICAL but as_bytes != to_bytes for {}", w));
+                    }
+                }
+            }
+            o
         },
         ["mulsmall", a, k] => {
             if F::NAME != "f64" {
@@ -754,6 +915,66 @@ fn gen_f<F: Fld>(rng: &mut Rng, n: usize, emit: &mut dyn FnMut(String)) {
         emit(format!("{} read {}", f, hex(&bytes[..nb - 1])));
     }
     emit(format!("{} frombytes -", f));
+    // twin entry points (DESIGN 9.5 lesson 14) on the grids of their twins: the assigning operators and mul_base on
+    // the boundary products of raw words, the residue views on every boundary word, slices, padded bytes
+    emit(format!("{} const2", f));
+    for a in &braw {
+        for b in &braw {
+            emit(format!("{} rasg {} {}", f, a, b));
+        }
+        emit(format!("{} rview {}", f, a));
+        emit(format!("{} elems {}", f, a));
+    }
+    for a in &bnd {
+        emit(format!("{} view {}", f, a));
+        for b in [0u128, 1, m - 1, m, (m + 1) / 2] {
+            emit(format!("{} asg {} {}", f, a, b));
+            emit(format!("{} asg {} {}", f, b, a));
+        }
+        let nb = F::ELEMENT_BYTES;
+        let bytes: Vec<u8> = (0..nb).map(|i| (a >> (8 * i)) as u8).collect();
+        for k in 0..=nb {
+            emit(format!("{} padded {}", f, hex(&bytes[..k])));
+        }
+        let mut longer = bytes.clone();
+        longer.push(0);
+        emit(format!("{} padded {}", f, hex(&longer)));
+    }
+    for i in [0u32, 1, 2, 3] {
+        for a in [0u128, 1, m - 1] {
+            emit(format!("{} basee {} {}", f, i, a));
+        }
+    }
+    emit(format!("{} elems", f));
+    for len in 1..=9usize {
+        for pat in 0..4 {
+            let ws: Vec<String> = (0..len)
+                .map(|i| match pat {
+                    0 => braw[(i * 7 + len) % braw.len()],
+                    1 => if i % 2 == 0 { 0 } else { rawlim - 1 },
+                    2 => m - 1,
+                    _ => rnd_raw(rng),
+                })
+                .map(|w| w.to_string())
+                .collect();
+            emit(format!("{} elems {}", f, ws.join(" ")));
+        }
+    }
+    for _ in 0..(n / 8) {
+        let pickv = |rng: &mut Rng| if rng.chance(1, 4) { *rng.pick(&bnd) } else { rnd(rng) };
+        let pickr = |rng: &mut Rng| if rng.chance(1, 4) { *rng.pick(&braw) } else { rnd_raw(rng) };
+        match rng.below(6) {
+            0 | 1 => emit(format!("{} rasg {} {}", f, pickr(rng), pickr(rng))),
+            2 => emit(format!("{} asg {} {}", f, pickv(rng), pickv(rng))),
+            3 => emit(format!("{} rview {}", f, pickr(rng))),
+            4 => emit(format!("{} view {}", f, pickv(rng))),
+            _ => {
+                let len = rng.range(1, 40);
+                let ws: Vec<String> = (0..len).map(|_| pickr(rng).to_string()).collect();
+                emit(format!("{} elems {}", f, ws.join(" ")))
+            },
+        }
+    }
     for i in 0..n {
         let op = *rng.pick(&["add", "sub", "mul", "mul", "mul", "div"]);
         let pickv = |rng: &mut Rng| if rng.chance(1, 4) { *rng.pick(&bnd) } else { rnd(rng) };
@@ -861,6 +1082,18 @@ impl Prop for P {
                 _ => 40,
             };
             if n == 0 || n > two_adicity {
+                return None;
+            }
+        }
+        if t.len() == 4 && t[1] == "basee" && t[2] != "0" {
+            // base_element(i) of a prime field panics for i != 0 (documented); the model mirrors it
+            return None;
+        }
+        if t.len() == 3 && t[1] == "padded" {
+            // from_bytes_with_padding panics on ELEMENT_BYTES or more bytes (documented); fewer bytes always pad to a
+            // value below the modulus in the three fields, so any other panic is a failure
+            let nb = if t[0] == "f128" { 16 } else { 8 };
+            if t[2] != "-" && t[2].len() / 2 >= nb {
                 return None;
             }
         }
